@@ -133,7 +133,7 @@ func (c *Ctx) Floor(rule, what string, got, floor int) {
 }
 
 func (c *Ctx) Analysed(key string, v interface{}) { c.analysed[key] = v }
-func (c *Ctx) Note(s string)                       { c.notes = append(c.notes, s) }
+func (c *Ctx) Note(s string)                      { c.notes = append(c.notes, s) }
 
 // Spec describes the property-level texts that go into evidence.
 type Spec struct {
